@@ -61,6 +61,26 @@ CHECKS = {
         text="Generated timing configurations and scripts of start / stop (also twice) / announce / stop_announce / connection loss / FindService datagrams, each step placed relative to the library's pending timers, run against 1..3 instances; through a record-and-forward wrapper of queue_send and independent decoding of all datagrams the check compares the first offer with the drawn initial delay (and the window the library asked the RNG for), every gap with the repetition/cyclic schedule, offer contents, exactly-one StopOffer per stop after having offered, none before the first offer of a cyclic instance, and no non-zero-TTL offer to anyone while stopped - including delayed FindService answers. The helper path SimpleService.start_announce/stop_announce runs against a real announcer (open finding KF-D6).",
         note="Trusted: virtual loop, wire.py, the reference schedule. 'Has offered' = first offer queued. start() only on a stopped announcer.",
     ),
+    "C11": dict(
+        technique="property-based testing: reference decision per Subscribe entry (reference matcher + model of recorded subscriptions + drawn listener decisions) against independently decoded SubscribeAck multisets, Hypothesis over server configurations, lifecycle phases and multi-entry messages",
+        text="Generated servers (0..3 instances, wildcard ids on the service side, never started / started / restarted / single instances stopped, initial-wait / non-cyclic / cyclic phase) receive generated messages of 1..6 Subscribe/StopSubscribe entries (matching, nearly matching, not matching; counters, TTLs, endpoint sets), unicast and multicast; per message the multiset of SubscribeAck entries leaving the transport must equal the reference multiset (echoed ids and counter, requested TTL or 0, sender only), nothing else may be sent, multicast Subscribes change nothing.",
+        note="Trusted: reference matcher, wire.py, virtual loop. Entries matched by more than one configured instance are excluded (quantifier). A Nack for a StopSubscribe that matches nothing is accepted but not required.",
+    ),
+    "C12": dict(
+        technique="model-based property testing on a deterministic virtual-time event loop: Hypothesis timing configurations and lifecycle scripts with FindService datagrams placed relative to pending timers, reference responder set (reference matcher x lifecycle model) and due times from the stubbed RNG",
+        text="FindService datagrams over every wildcard combination and near-miss arrive, unicast or multicast, at generated instants of the offer lifecycle of 1..3 instances (initial wait, each repetition, cyclic phase, around stop/restart, while a delayed answer is pending); expected responders and the due time of each answer (arrival, or arrival + the delay drawn from the stub, whose requested window is checked) are computed from a reference model; queued and transmitted unicast offers must be exactly one per expected responder, to the requester only, with TTL/options, within the collection timeout.",
+        note="Trusted: reference matcher, lifecycle model, wire.py, virtual loop. Where readiness or running state changes within RES of the Find / of the due time both outcomes are accepted.",
+    ),
+    "C15": dict(
+        technique="property-based testing on a deterministic virtual-time event loop: Hypothesis sequences of queue requests placed relative to the collector timers, sequence-equality oracle per destination on independently decoded datagrams",
+        text="Uniquely tagged entries are queued for the multicast group and up to 3 peers in generated bursts and at instants relative to the pending collection timers (same iteration before/after the window closes), with running instances contributing their own offers and an announcer stop/start in the middle; per destination the concatenated transmitted entries must equal the queued sequence (exactly once, in order), no datagram mixes destinations, every entry leaves within the timeout, and timeout 0 means one datagram per entry at once.",
+        note="Trusted: record-and-forward wrapper of queue_send, wire.py, virtual loop.",
+    ),
+    "C16": dict(
+        technique="property-based testing: reference decision chain against independently decoded replies, Hypothesis over all header field combinations + exhaustive product of type x return code x service/version/method validity x handler kind x channel",
+        text="A SimpleService with generated method handlers (returning bytes, None, or rejecting) receives generated messages (all message types and return codes, ids equal/off-by-one/random, unicast/multicast, as objects or as bytes with several messages per datagram); the replies leaving the transport are decoded independently and must equal the reference decision (count, destination, type, return code by first failing check, echoed ids, payload).",
+        note="Trusted: reference decision chain written from the statement, wire.py.",
+    ),
 }
 ALL = ["C%02d" % i for i in range(1, 21)]
 NOT_APPLICABLE = {p: "check not built yet in this revision (in progress); the technique applies" for p in ALL if p not in CHECKS}
